@@ -208,12 +208,30 @@ pub fn run(tier: Tier) -> i32 {
             }
         }
         total.merge(explore::all_sequences2(&fw, 3, |syms, acc| one_text(&ctx, acc, l, &lang, syms)));
+        // punctuation glued to a number word (quotes, brackets, sentence marks), in front, behind and around it: the end
+        // of the text and a blank after it must be the same thing to the tokenizer
+        {
+            let mut acc_g = Acc::new();
+            for p in ["'", "\"", "(", ")", ",", ";", "!", "?", ":", "\u{2026}", "\u{ab}", "\u{bb}", "\u{2019}", "`", "*", "_", "/", "%", "&", "''", "'."] {
+                for base in [&c.unit, &c.tens] {
+                    for d in [format!("{base}{p}"), format!("{p}{base}"), format!("{p}{base}{p}")] {
+                        let a3: Vec<String> = vec![d.clone(), c.one.clone(), c.ordinary.clone()];
+                        acc_g.merge(explore::all_sequences2(&a3, 3, |syms, acc| {
+                            if syms.iter().any(|s| *s == d) {
+                                one_text(&ctx, acc, l, &lang, syms)
+                            }
+                        }));
+                    }
+                }
+            }
+            total.merge(acc_g);
+        }
         total.sample(json!({"lang": l.code(), "text": format!("{}\u{a0}{}\t{}", a[1], a[0], a[2])}));
     }
     let cov = json!({
         "exhaustive": true,
         "rule": "every word sequence of length <= k joined by single spaces; every maximal whitespace run replaced uniformly and one at a time by each of 16 whitespace strings, and each prepended/appended; validator, occurrence texts/values and pass-through compared with the original at thresholds 0 and 10; non-trivial = substituted variants",
-        "bounds": {"alphabet": n, "depth": k, "whitespace_kinds": WS.iter().map(|w| w.escape_unicode().to_string()).collect::<Vec<_>>(), "long_runs_on_sequences_of_at_most_2": "1100 spaces, 400 ideographic spaces, 5000 newlines"},
+        "bounds": {"alphabet": n, "depth": k, "whitespace_kinds": WS.iter().map(|w| w.escape_unicode().to_string()).collect::<Vec<_>>(), "long_runs_on_sequences_of_at_most_2": "1100 spaces, 400 ideographic spaces, 5000 newlines", "glued_punctuation_stage": "21 punctuation strings in front of / behind / around the unit and the tens word; all sequences <= 3 with one and an ordinary word"},
         "alphabets": alphas,
     });
     ctx.finish(total, cov, vec!["only characters with the Unicode White_Space property count as whitespace (U+200B is not)".into()])
